@@ -72,6 +72,10 @@ func (transaction *Transaction) UnmarshalJSON(data []byte) error {
 		transaction.hasReward = true
 		transaction.rewardRecipientAddress = dto.Outputs[0].Address()
 		transaction.rewardValue = dto.Outputs[0].InitialValue()
+	} else {
+		transaction.hasReward = false
+		transaction.rewardRecipientAddress = ""
+		transaction.rewardValue = 0
 	}
 	transaction.id = dto.Id
 	transaction.inputs = dto.Inputs
